@@ -109,7 +109,19 @@ func segsJSON(segs [][]byte) interface{} {
 }
 
 // run f under recover; report a panic as a fault
+// VERIF_C01_ONLY = "<mode>|<limits>|<consumer>": run only that consumer on that presentation (confirmation of a watchdog report)
+var c01only = os.Getenv("VERIF_C01_ONLY")
+
 func guarded(line int, mode, variant, consumer string, segs [][]byte, stats map[string]int, f func()) {
+	if c01only != "" {
+		lim := variant
+		if i := strings.LastIndex(variant, "/"); i >= 0 {
+			lim = variant[i+1:]
+		}
+		if c01only != mode+"|"+lim+"|"+consumer {
+			return
+		}
+	}
 	stats["consumer_runs"]++
 	curMu.Lock()
 	cur = &running{line: line, mode: mode, variant: variant, consumer: consumer, segs: segs, start: time.Now()}
